@@ -171,6 +171,13 @@ theorem source_shape_components_readonly :
        "borehole_heat_exchangers.py:GHEDesignerBoreholeWithMultiplePipes.match_effective_borehole_resistance.objective_resistance:preliminary_new_single_u_tube.grout.k"] := by
   decide
 
+/-- The package keeps no state outside its objects: no module-level dict/list/set, no `global`
+    statement, no memoising decorator.  The model's `World` (managers + heap of boreholes + the
+    `keep_contour` default) is therefore all the state a history can leave behind in a process; a
+    module-level memo (seeded change C07-w2m1) breaks this theorem. -/
+theorem source_shape_no_module_state : Gen.Api.moduleState = [] := by
+  decide
+
 def snapshotArgs : List String :=
   ["flow_rate", "self._borehole", "self.pipe_type", "self._fluid", "self._pipe", "self._grout", "self._soil",
    "self._simulation_parameters", "self._geometric_constraints", "self._ground_loads", "flow_type=flow_type",
